@@ -157,7 +157,7 @@ def _reader_target(rname):
         files, target, reader = st["readers"][rname]
         flag = data[0] if data else 0
         body = data[1:]
-        if rname.startswith("loose") and flag & 1:
+        if "loose" in rname and flag & 1:
             body = zlib.compress(body, 1)
         elif rname in CHECKSUMMED and flag & 1:
             body = body + hashlib.sha1(body).digest()
@@ -173,7 +173,7 @@ def _reader_seeds(rname):
         files, target, reader = st["readers"][rname]
         data = files[target]
         out = [b"\0" + data]
-        if rname.startswith("loose"):
+        if "loose" in rname:
             out.append(b"\1" + zlib.decompress(data))
         elif rname in CHECKSUMMED:
             out.append(b"\1" + data[:-20])
@@ -183,7 +183,7 @@ def _reader_seeds(rname):
 
 
 READERS = ["idx v1", "idx v2", "pack(idx v2 damaged)", "store(idx v2 damaged)", "index v2", "index v3", "index v4", "commit-graph", "multi-pack-index",
-           "packed-refs(peeled)", "loose commit", "loose tree"]
+           "packed-refs(peeled)", "loose commit", "loose tree", "store(loose commit damaged)"]
 
 TARGETS = {"pack_struct": dict(fn=pack_struct, seeds=_pack_seeds, max_len=6000,
                                imports=["dulwich.object_store", "dulwich.pack", "dulwich.objects"], warmup=_env, reset=_state.clear)}
